@@ -350,3 +350,12 @@ def selftest() -> dict:
     assert s.image() == b"\xad" * 100 and s.cbw["command"] == 2 and s.cbw["cdb_length"] == 100 and not s.anomalies, s.anomalies
     n += 1
     return {"vectors": n}
+
+
+# Report payload the ROM of each SDPS family takes per HID transfer, and whether it wants the BLTC command block first
+# (NXP mfgtools / uuu ROM table: the ROMs that receive on interrupt endpoint 1 take 1020 bytes, the ones that receive on the
+# control endpoint 1024).  Independent of the database under test; a family that is not listed is not judged by it.
+SDPS_ROM_TABLE = {
+    "mimx28": (1024, True), "mimx8x": (1024, False), "mimx8mn": (1020, False), "mimx8mp": (1020, False), "mimx8ulp": (1020, False),
+    "mimx9131": (1020, False), "mimx9352": (1020, False), "mimx943": (1020, False), "mimx9596": (1020, False),
+}
